@@ -46,11 +46,11 @@ Proof. exact unread_read. Qed.
 Print Assumptions C17_unread_restores.
 
 (** substitution is textual replacement: after the word [name] has been read, what the lexer
-    reads next is the alias value (its trailing blanks replaced by one blank) followed by what
-    followed the word -- also when the word itself came from an alias value (repeated replacement) *)
+    reads next is the alias value (its trailing blanks replaced by one blank; a blank quoted by a
+    backslash is part of the value's text, [trim_value]) followed by what followed the word -- also when the word itself came from an alias value (repeated replacement) *)
 Theorem C17_substitution_is_textual_replacement : forall t s name s',
   asubst t s name = Some s' ->
-  exists v, alias_lookup name t = Some v /\ flatten s' = trim_right v ++ [32] ++ flatten s.
+  exists v, alias_lookup name t = Some v /\ flatten s' = trim_value v ++ [32] ++ flatten s.
 Proof. exact subst_is_textual_replacement. Qed.
 Print Assumptions C17_substitution_is_textual_replacement.
 
@@ -69,13 +69,26 @@ Proof. exact stream_depth_bounded. Qed.
 Print Assumptions C17_every_table_terminates.
 
 (** when a value ends in a blank the following word is examined too: the flag recorded at the
-    substitution says exactly that, and it is pending once the value has been read to its end *)
+    substitution says exactly that blanks were cut from the end of the value (the value is its text
+    followed by a non-empty run of blanks; a blank quoted by a backslash belongs to the text), and
+    it is pending once the value has been read to its end *)
 Theorem C17_blank_rule : forall t s name s' e below,
   asubst t s name = Some s' -> fst s' = e :: below ->
-  (eblank e = true <-> exists v v0 c, alias_lookup name t = Some v /\ v = v0 ++ [c] /\ is_blank c = true) /\
+  (eblank e = true <-> exists v tail, alias_lookup name t = Some v /\ v = trim_value v ++ tail /\ tail <> [] /\ forallb is_blank tail = true) /\
   blank_pending (set_rest e [] :: below) = eblank e || blank_pending below.
 Proof. exact blank_rule. Qed.
 Print Assumptions C17_blank_rule.
+
+(** what is cut: the two blanks after ls; nothing from e, backslash, blank (a quoted blank); the blank
+    after e, backslash, backslash (a quoted backslash); one of the two blanks after e, backslash; a
+    quoted tab stays like a quoted blank *)
+Example C17_trim_value_witness :
+  trim_value [108; 115; 32; 32] = [108; 115] /\
+  trim_value [101; 92; 32] = [101; 92; 32] /\
+  trim_value [101; 92; 92; 32] = [101; 92; 92] /\
+  trim_value [101; 92; 32; 32] = [101; 92; 32] /\
+  trim_value [101; 92; 9] = [101; 92; 9].
+Proof. vm_compute. repeat split. Qed.
 
 (** the premises are met: a chain of two aliases, the inner one blank-terminated *)
 Example C17_stream_witness :
